@@ -105,6 +105,9 @@ def check(args):
                 parts.append(json.load(f))
         elif rc is not None:
             broken.append((i, rc, out[-3000:]))
+    if broken and all(any(l.startswith('INCONCLUSIVE property=') for l in out.splitlines()) for i, rc, out in broken):
+        print([l for l in broken[0][2].splitlines() if l.startswith('INCONCLUSIVE property=')][0])
+        return 2
     if broken:
         for i, rc, out in broken:
             print('HARNESS-ERROR property=%s worker=%d rc=%s\n%s' % (module.PID, i, rc, out))
